@@ -30,7 +30,7 @@ TEXTCONV = "#!/bin/sh\ntr 'a-z' 'A-Z' < \"$1\"\n"
 class C12(C02):
     id = "C12"
     families = ["commits", "partial", "amend", "rebase", "rebase_i", "cherry_pick", "squash_merge", "reset_recommit",
-                "stash", "switch_carry", "renames"]
+                "stash", "switch_carry", "renames", "pull", "switch_merge", "reset_pathspec", "stash_pathspec"]
     quick_runs, thorough_runs = 300, 5000
     quick_budget_s, thorough_budget_s = 170, 1800
     rule = ("one run = one history family executed twice from identical worlds: baseline, and with a drawn subset (1..6) of "
